@@ -937,6 +937,8 @@ def rule_A1(F, R):
         for i in body:
             t = c.term(i)
             if t and t["k"] == "call":
+                if any(n.endswith("StorageTxn::set_task") for n in call_names(t)):
+                    fl_ok = True
                 for n in call_names(t):
                     hb = F.real_body(n) if n in F.bodies else None
                     if hb is not None and any(any(x.endswith("StorageTxn::set_task") for x in call_names(tt)) for q in F.reachable_from([hb["path"]]) for (_j, tt) in F.calls_in.get(q, ())):
@@ -945,4 +947,38 @@ def rule_A1(F, R):
         R.ok("A1", "final flush loop writes cached tasks with set_task", where(b))
     else:
         R.violation("A1", subj, "no-final-flush", "after the dispatch loop the cached tasks are not written back", where(b))
+    # eviction discipline: entries leave the cache only one key at a time (flush / overwrite) or through a
+    # bulk removal that hands *every* entry on: a `drain()` cut short by an iterator adaptor, or a
+    # retain/clear before the final flush, drops pending writes
+    PARTIAL = re.compile(r"^std::iter::Iterator::(take|skip|step_by|take_while|skip_while|nth|last|find|any|all|position|filter|min|max)$")
+    BULK = re.compile(r"HashMap::<K, V, S, A>::(drain|retain|clear|extract_if)$")
+    cty = b["locals"][cache]["ty"]
+    nb = 0
+    for q in sorted({b["path"]} | {x for x in F.reachable_from([b["path"]]) if x.startswith(b["owner_fn"])}):
+        qb = F.bodies.get(q)
+        if qb is None or not qb.get("blocks"):
+            continue
+        qc = cfg_of(qb)
+        qf = None
+        for (i, t) in qc.calls():
+            names = call_names(t)
+            m = next((BULK.search(n) for n in names if BULK.search(n)), None)
+            if m and t["args"]:
+                pl = op_place(t["args"][0])
+                ty = qb["locals"][pl["l"]]["ty"] if pl else ""
+                if cty not in ty:
+                    continue
+                nb += 1
+                kind = m.group(1)
+                if kind in ("retain", "extract_if"):
+                    R.violation("A1", subj, "cache-eviction:" + kind, "the write cache is pruned with %s: entries holding pending updates are dropped without set_task" % kind, where(qb, i))
+                elif kind == "clear":
+                    if q != b["path"] or not fl_ok or any(h != main[0] and c.dominates(main[0], h) and not (i in body_ or c.dominates(h, i)) for h, body_ in loops.items()):
+                        R.violation("A1", subj, "cache-eviction:clear", "the write cache is cleared before the final flush: pending updates are dropped without set_task", where(qb, i))
+            if any(PARTIAL.search(n) for n in names) and t["args"]:
+                qf = qf or flow_of(qb)
+                sl = qf.slice_operand(t["args"][0])
+                if any(BULK.search(n) and BULK.search(n).group(1) == "drain" for tt in sl.calls.values() for n in call_names(tt)):
+                    R.violation("A1", subj, "cache-eviction:partial-drain", "a drain() of the write cache is cut short by %s: drain removes every entry, but only the ones iterated are written back" % names[0].split("::")[-1], where(qb, i))
+    R.info("A1", "bulk removals from the write cache examined: %d" % nb)
     R.extra["exhaustive"] = True
